@@ -74,6 +74,9 @@ type Server struct {
 	Issues    []*Issue
 	Faults    map[string]*Fault
 	Log       []string
+	// OnRequest, when set, is called with the request key before the request is served (outside the server's
+	// lock): a test can let the tracker change, or time pass, in the middle of an import
+	OnRequest func(key string)
 	seen      map[string]int
 	nextID    int
 	HTTP      *httptest.Server
@@ -100,6 +103,13 @@ func (s *Server) Reset() {
 }
 
 func (s *Server) URL() string { return s.HTTP.URL + "/" }
+
+// Locked runs f while holding the server's lock (to change the tracker while requests are being served).
+func (s *Server) Locked(f func()) {
+	s.mu.Lock()
+	defer s.mu.Unlock()
+	f()
+}
 
 // NextID hands out ids for notes and events (unique across kinds, like GitLab's are per kind; uniqueness across kinds keeps the oracle simple).
 func (s *Server) NextID() int {
@@ -155,6 +165,11 @@ func (s *Server) serve(w http.ResponseWriter, r *http.Request) {
 	s.seen[base]++
 	key := fmt.Sprintf("%s #%d", base, s.seen[base])
 	s.Log = append(s.Log, key)
+	if hook := s.OnRequest; hook != nil {
+		s.mu.Unlock()
+		hook(key)
+		s.mu.Lock()
+	}
 	if f, ok := s.Faults[key]; ok && f.Times != 0 {
 		if f.Times > 0 {
 			f.Times--
